@@ -371,6 +371,7 @@ type Req struct {
 type ICase struct {
 	Handlers []string `json:"handlers"` // order of field handlers between NewHandler and the final handler
 	BaseCtx  int      `json:"base_ctx"` // number of context fields on the base logger (spare capacity)
+	BaseBig  int      `json:"base_big,omitempty"` // plus one field of this many bytes: a context buffer that has grown well past its first size, with the slack that growth leaves
 	Reqs     []Req    `json:"reqs"`
 	Events   int      `json:"events_per_request"`
 	// SharedCtx: every request's context derives from one base context that already carries a
@@ -433,6 +434,9 @@ func runIsolation(c *ICase) (string, bool) {
 	ctx := zerolog.New(out).With()
 	for i := 0; i < c.BaseCtx; i++ {
 		ctx = ctx.Str(fmt.Sprintf("base%d", i), "b")
+	}
+	if c.BaseBig > 0 {
+		ctx = ctx.Str("basebig", strings.Repeat("B", c.BaseBig)).Str("baseafter", "b")
 	}
 	base := ctx.Logger()
 	probe := func() string {
@@ -673,6 +677,9 @@ func runIsolation(c *ICase) (string, bool) {
 				return fmt.Sprintf("request %s: access event reports status=%s size=%s, want %d/%d", rq.ID, f["status"], f["size"], 200+len(rq.ID)%5, len(rq.ID)), overlapped >= 2
 			}
 		}
+		if c.BaseBig > 0 && (f["basebig"] != strings.Repeat("B", c.BaseBig) || f["baseafter"] != "b") {
+			return fmt.Sprintf("request %s: the base logger's large context field is missing or altered in %.300q", rq.ID, line), overlapped >= 2
+		}
 		for i := 0; i < c.BaseCtx; i++ {
 			if f[fmt.Sprintf("base%d", i)] != "b" {
 				return fmt.Sprintf("request %s: base context field base%d missing or altered in %q", rq.ID, i, line), overlapped >= 2
@@ -696,7 +703,7 @@ func runIsolation(c *ICase) (string, bool) {
 
 func genICase(rt *rapid.T, maxReqs int) *ICase {
 	names := []string{"url", "method", "request", "remote", "ip", "ua", "referer", "proto", "httpver", "custom", "host", "hostnp", "reqid", "etag", "resphdr"}
-	c := &ICase{BaseCtx: rapid.IntRange(0, 3).Draw(rt, "basectx"), Events: rapid.IntRange(1, 3).Draw(rt, "events"),
+	c := &ICase{BaseCtx: rapid.IntRange(0, 3).Draw(rt, "basectx"), BaseBig: rapid.SampledFrom([]int{0, 0, 600, 7000, 70000}).Draw(rt, "basebig"), Events: rapid.IntRange(1, 3).Draw(rt, "events"),
 		SharedCtx: rapid.IntRange(0, 2).Draw(rt, "sharedctx") == 0, MutedInner: rapid.IntRange(0, 3).Draw(rt, "muted") == 0, NestedSame: rapid.IntRange(0, 3).Draw(rt, "nestedsame") == 0, NestedAccess: rapid.IntRange(0, 2).Draw(rt, "nestedaccess") == 0}
 	perm := rapid.Permutation(names).Draw(rt, "perm")
 	c.Handlers = perm[:rapid.IntRange(1, len(perm)).Draw(rt, "nh")]
